@@ -17,8 +17,10 @@ func init() {
 			"(descent-agreement) add, find and remove send a value that compares below the node to the same child and a value above it to the other one (comparator argument order and sign normalised), and find/remove test == before descending; " +
 			"(walk-order) each node walker visits value/left/right in its V-L-R, L-V-R or L-R-V order on every path, recursing into ITSELF on each non-nil child exactly once, and Walk*/Slice*/String dispatch to the matching walker; " +
 			"(subtree-conservation) on every found-path of node.remove each child subtree of the unlinked node reaches the returned subtree exactly once, and no store overwrites a child pointer that may still hold a subtree. " +
+			"(inorder-conservation) each mutator is abstractly executed on symbolic in-order sequences (stores replayed into a field memory per path; S(x) = unopened entry subtree, V(v) = one node; calls to rebalance/rotations transparent once their own paths are shown to conserve the sequence): rotations and rebalance return their receiver's sequence, add returns it with the value inserted exactly once on the side the comparison selects, remove returns it without the unlinked node (found) or with the child's removal spliced in exactly when it succeeded, popLeftMost splits it into first+rest, Tree.Add/Remove install that at the root - this is the inductive step of 'the walk lists the multiset in order'; " +
+			"(null-guard) no child/root pointer is dereferenced on a path that has not tested it non-nil (loop-carried pointers inductively); (contains-table) Contains/contains/find as decision tables. " +
 			"NOT decided: that these compose to 'in-order walk = sorted multiset' for every history (an inductive invariant over runtime tree values); behaviour for comparators inconsistent with ==.",
-		assumptions: []string{"the comparator is a total order consistent with == (as in the property)"},
+		assumptions: []string{"the comparator is a total order consistent with == (as in the property)", "tree shape: distinct access paths from a node denote distinct nodes, and a callee handed a subtree changes nothing outside it"},
 	})
 }
 
@@ -134,6 +136,12 @@ func runC01(c *Ctx) {
 	c01Descent(c, a)
 	c01Walk(c, a)
 	c01Conservation(c, a)
+	R.Rule("inorder-conservation", "symbolic in-order sequences: rebalance and the rotations return their receiver's sequence; add returns it with the value inserted once on the side the comparison selects; remove returns it minus the unlinked node / with the child's removal spliced in exactly on success; popLeftMost splits it into first and rest; Tree.Add/Remove install exactly that at the root", 10)
+	R.Rule("null-guard", "child and root pointers are dereferenced (method call, field read or write) only on paths that have tested them non-nil (inside a rotation the promoted child exists by rebalance's precondition)", 16)
+	R.Rule("contains-table", "Contains: empty -> false, else the root's search; contains = find != nil; find returns the node equal to the value and gives up only where no eligible child is left", 3)
+	c01Inorder(c, a)
+	c01NullGuard(c, a)
+	c01Contains(c, a)
 }
 
 func c01SizeCache(c *Ctx, a *avlAnchors) {
